@@ -4,7 +4,7 @@ EXTENDS Quadrature
 CInit == MaxOrd = 60 /\ MaxHist = 0
 IndInit == /\ lo \in 1..MaxOrd /\ hi \in 1..MaxOrd /\ rtol \in 1..2
            /\ table \in {<<a, b>> : a \in 1..MaxOrd, b \in 1..MaxOrd}
-           /\ outcome \in {"ok", "ValueError"} /\ hist = <<>>
+           /\ outcome \in {"ok", "ValueError"} /\ hist = <<>> /\ touched \in BOOLEAN
            /\ IndInv
 Step == NextStep
 =============================================================================
